@@ -878,3 +878,20 @@ package vegeta
 //@   property C09
 //@   pragma mode safety
 //@   requires enc != nil
+
+// ---------------------------------------------------------------------------------- C08
+// DecoderFor: sniffing neither loses nor replays bytes. Stream-position model (stubs/io.spec): the
+// buffer always holds exactly the bytes consumed from r since entry, every trial decoder and the
+// returned decoder read the stream from the position r had at entry (contiguity is the precondition
+// of io.MultiReader, the tee precondition says the buffer is in step with the source).
+//@ func DecoderFor
+//@   property C08 C16
+//@   requires [live-source] r != nil && live(r) && rsrc(r) == ref(r) && consumed(r) >= 0
+//@   ghost start int = consumed(r)
+//@   at alloc buf: ghost rsrc(&buf) = ref(r) ; ghost rfrom(&buf) = consumed(r) ; ghost rto(&buf) = consumed(r) ; ghost teeof(&buf) = 0 ; ghost live(&buf) = false ; ghost rempty(&buf) = false
+//@   before call dec x2: assert [every-decoder-reads-from-the-first-record] rsrc(arg0) == ref(r) && rfrom(arg0) == start
+//@   ensures [nothing-lost-nothing-replayed] result != nil ==> rsrc(dreader(result)) == ref(r) && rfrom(dreader(result)) == start && rto(dreader(result)) == -1
+//@   loop 1
+//@     invariant -1 <= rangeindex && rangeindex < 3 && r == old(r) && live(r) && rsrc(r) == ref(r)
+//@     invariant rsrc(&buf) == ref(r) && rfrom(&buf) == start && rto(&buf) == consumed(r) && !live(&buf) && !rempty(&buf) && (teeof(&buf) == 0 || teeof(&buf) == ref(r)) && consumed(r) >= start
+//@     decreases 3 - rangeindex
